@@ -46,7 +46,7 @@ def dropped_cells_result(m, families=None, rule='WITNESS'):
 
 # ------------------------------------------------------------------------------------------------
 def c18(m, tier):
-    return [rules_decl.rule_pure(m), rules_decl.rule_const_closure(m)]
+    return [rules_decl.rule_pure(m), rules_decl.rule_const_closure(m), rules_io.rule_open(m)]
 
 
 def c20(m, tier):
@@ -80,7 +80,7 @@ def c07(m, tier):
     eng = val_engine(m)
     return [rules_val.rule_val(m, eng), rules_val.rule_sanitizer(m, eng), rules_val.rule_throw_before_write(m),
             rules_val.rule_getlabel(m), rules_decl.rule_throw(m), rules_struct.rule_label_writes(m), rules_decl.rule_defaults(m), rules_ts.rule_cursor_direction(m),
-            rules_val.rule_invented_index(m)]
+            rules_val.rule_invented_index(m), rules_decl.rule_noexcept(m)]
 
 
 def _pair(m, classes, rules, minimum):
@@ -162,7 +162,8 @@ def c09(m, tier):
 
 
 def c10(m, tier):
-    return [rules_xport.rule_xport(m), rules_val.rule_val(m, val_engine(m)), dropped_cells_result(m, {'sub'}), rules_val.rule_invented_index(m)]
+    return [rules_xport.rule_xport(m), rules_val.rule_val(m, val_engine(m)), dropped_cells_result(m, {'sub'}), rules_val.rule_invented_index(m),
+            rules_decl.rule_valsem(m)]
 
 
 def c13(m, tier):
@@ -180,14 +181,14 @@ def c14(m, tier):
 
 def c15(m, tier):
     return [rules_io.rule_checked_read(m), rules_io.rule_wrap(m), rules_io.rule_sign(m), rules_io.rule_grow(m, 'text'),
-            rules_io.rule_tokeniser_access(m), rules_decl.rule_throw(m), rules_val.rule_val(m, val_engine(m))]
+            rules_io.rule_tokeniser_access(m), rules_decl.rule_throw(m), rules_val.rule_val(m, val_engine(m)), rules_decl.rule_noexcept(m)]
 
 
 def c17(m, tier):
     wl, bound, heap = rules_wl.run_searches(m, {'S-LC'})
     heap.require_sites(3, 'heap facts')
     return [rules_ts.rule_typestate(m), heap, rules_io.rule_checked_read(m), rules_val.rule_val(m, val_engine(m)),
-            rules_xport.rule_idx(m), rules_io.rule_wrap(m), rules_io.rule_tokeniser_access(m), rules_decl.rule_init(m), rules_ts.rule_signed_arith(m), rules_ts.rule_sorted_range(m), rules_ts.rule_cursor_direction(m), rules_io.rule_grow(m, 'text')]
+            rules_xport.rule_idx(m), rules_io.rule_wrap(m), rules_io.rule_tokeniser_access(m), rules_decl.rule_init(m), rules_ts.rule_signed_arith(m), rules_ts.rule_sorted_range(m), rules_ts.rule_cursor_direction(m), rules_io.rule_grow(m, 'text'), rules_ts.rule_cursor_live(m)]
 
 
 def c11(m, tier):
@@ -201,7 +202,7 @@ def c12(m, tier):
     wl.require_sites(10, 'schema facts')
     # heap discipline is not needed for the distances of a label-correcting search (any removal order is correct);
     # it is decided under C17 (library precondition) and C19 (work bound)
-    return [wl]
+    return [wl, heap.top]
 
 
 def c19(m, tier):
